@@ -556,6 +556,19 @@ func modelTxTokens(raw []byte) (buildOk bool, toks []string) {
 	return
 }
 
+// buildAssigned: does BuildTxList on a fresh Block made of raw leave bl.Txs non-nil (it returns before the
+// assignment when the count field is corrupt)?
+func buildAssigned(raw []byte) (yes bool) {
+	defer func() { recover() }()
+	bl, er := btc.NewBlock(raw)
+	if er != nil || len(raw) < 81 {
+		return false
+	}
+	defer func() { yes = bl.Txs != nil }()
+	bl.BuildTxList()
+	return
+}
+
 func hx(b []byte) string {
 	if len(b) == 0 {
 		return "e"
@@ -788,9 +801,10 @@ func runBlock(kind string, sc *scenario, s *blockSpec, cons consH, raw []byte, n
 	// of the chain state; compared: result, the block-object fields CheckBlock assigns, and the chain state afterwards
 	if !(s.shortRaw > 0 || len(raw) < 80) {
 		buildOk, toks := modelTxTokens(raw)
-		cb := o.MustAsk(fmt.Sprintf("cb %d %d %s %d %d %d %d %d %s %s %d %s %d %d %d %d %d %d %s %s %s %s %s", len(raw), ver, hashHex, bkey(bl.Hash.Hash[:]), bkey(raw[4:36]),
+		assigned := buildAssigned(raw) // BuildTxList returns before bl.Txs = make(...) on a corrupt count
+		cb := o.MustAsk(fmt.Sprintf("cb %d %d %s %d %d %d %d %d %s %s %d %s %d %d %d %d %d %d %s %s %s %s %s %s", len(raw), ver, hashHex, bkey(bl.Hash.Hash[:]), bkey(raw[4:36]),
 			bits, btime, now, b2s(sc.net.testnet), b2s(sc.net.testnet4), ch.Consensus.MaxPOWBits, ch.Consensus.MaxPOWValue.String(),
-			cons.bip34, cons.bip65, cons.bip66, cons.csv, cons.segwit, cons.taproot, b2s(preParsedIn), b2s(buildOk), b2s(s.trusted), vlib.Hex(raw[36:68]), strings.Join(toks, " ")))
+			cons.bip34, cons.bip65, cons.bip66, cons.csv, cons.segwit, cons.taproot, b2s(preParsedIn), b2s(buildOk), b2s(assigned), b2s(s.trusted), vlib.Hex(raw[36:68]), strings.Join(toks, " ")))
 		cf := strings.Fields(cb)
 		ntx := "nil"
 		if bl.Txs != nil {
